@@ -88,6 +88,35 @@ func buildIntrinsics() map[string]intrinsic {
 	m["verif:verifNondetI16"] = nd("i16", 16)
 	m["verif:verifNondetI8"] = nd("i8", 8)
 	m["verif:verifNondetBool"] = nd("bool", 1)
+	// verifDivHint(a, c, q, r int64): a lemma supplied by the harness, "a / c == q and a % c == r" (Go's truncated
+	// division, c a positive constant). It is NOT trusted: the defining conditions are decided by the solver here and
+	// the run is inconclusive unless they are valid under the path condition. Once proven, the executor uses q and r
+	// whenever the code under test divides the very same term a by c, so that the code's quotient and remainder are the
+	// harness's own variables (instead of fresh ones tied to them only through a 64-bit multiplication).
+	m["verif:verifDivHint"] = func(p *Path, fn *ssa.Function, a []Value, pos token.Pos, caller *ssa.Function) []Value {
+		c := p.ctx
+		x, d, q, r := p.intOf(a[0]).T, p.intOf(a[1]).T, p.intOf(a[2]).T, p.intOf(a[3]).T
+		if !d.IsConst() || int64(d.Val) < 3 {
+			p.unsupported("verifDivHint: divisor must be a constant >= 3")
+		}
+		w := x.S.W
+		zero := c.BV(w, 0)
+		mag := d.Val
+		lim := (uint64(1) << uint(w-1)) / mag
+		cond := c.And(c.Eq(x, c.Add(c.Mul(q, d), r)), c.And(c.SLE(c.BV(w, -lim), q), c.SLE(q, c.BV(w, lim))))
+		nonneg := c.SLE(zero, x)
+		cond = c.And(cond, c.Implies(nonneg, c.And(c.SLE(zero, r), c.SLT(r, d))))
+		cond = c.And(cond, c.Implies(c.Not(nonneg), c.And(c.SLT(c.Neg(d), r), c.SLE(r, zero))))
+		p.flushObligations()
+		p.sol.site = "verifDivHint"
+		res, _ := p.sol.Check(c.Not(cond), nil)
+		if res != Unsat {
+			panic(inconclusiveEnd{fmt.Sprintf("verifDivHint not proven (%v) at %s", res, p.curSite)})
+		}
+		p.userData[fmt.Sprintf("div:%p:%d:%d:%v", x, d.Val&maskW(w), w, true)] = [2]*Term{q, r}
+		p.noteAssumption("division lemmas supplied by the harness are proven by the solver before use (verifDivHint)")
+		return nil
+	}
 	m["verif:verifNondetIntRange"] = func(p *Path, fn *ssa.Function, a []Value, pos token.Pos, caller *ssa.Function) []Value {
 		t := p.newNondet(p.strArg(a[0], "nondet label"), "i64", 64)
 		c := p.ctx
